@@ -5,9 +5,9 @@
 
 /* ---- AST enumeration in prefix notation ------------------------------------------------------ */
 /* atoms 'a'..'k'; 'E' = "()"; 'G' c; 'C' l r; 'A' l r; quantifiers * + ? 0 1 2 3 followed by child */
-static const char *atom_txt[] = {"a", "b", ".", "[ab]", "[^a]", "[[:alpha:]]", "\xc3\xa9", "^", "$", "\\<", "\\>", "x", " ", "[^\xc3\xa9]", "[b\xc3\xa9]"};
+static const char *atom_txt[] = {"a", "b", ".", "[ab]", "[^a]", "[[:alpha:]]", "\xc3\xa9", "^", "$", "\\<", "\\>", "x", " ", "[^\xc3\xa9]", "[b\xc3\xa9]", "[[:upper:]]", "[^[:upper:]]"};
 #define NATOM 11	/* atoms used by the enumeration; 'l' (x) and 'm' (space) only in hand-written codes */
-#define NATOM_ALL 15
+#define NATOM_ALL 17
 static const char quants[] = "*+?0123";
 static const char *quant_txt[] = {"*", "+", "?", "{0,1}", "{1,2}", "{2}", "{2,}"};
 static const int quant_min[] = {0, 1, 0, 0, 1, 2, 2};
@@ -91,6 +91,8 @@ static const char *build(struct rr_ast *a, const char *p, int *out)
 		case 12: n->at = AT_LIT; n->lit = " "; break;
 		case 13: n->at = AT_BRK; n->brk_set = ""; n->brk_cp = 0xe9; n->brk_neg = 1; break;
 		case 14: n->at = AT_BRK; n->brk_set = "b"; n->brk_cp = 0xe9; break;
+		case 15: n->at = AT_BRK; n->brk_set = ""; n->brk_upper = 1; break;
+		case 16: n->at = AT_BRK; n->brk_set = ""; n->brk_upper = 1; n->brk_neg = 1; break;
 		}
 		return p + 1;
 	}
